@@ -35,7 +35,11 @@ def ty(q: Dict[str, Any], env: Dict[str, Any]):
     if k == "coll":
         return ("seq", ("obj",))
     if k == "sub":
-        return ty(q["a"], env)[1]
+        t = ty(q["a"], env)
+        return t[2][q["i"]] if t[0] == "tuple" else t[1]
+    if k == "key":
+        t = ty(q["a"], env)
+        return t[2][t[1].index(q["key"])]
     if k == "bin":
         if q["op"] in ("/", "**"):
             return "double"  # (an int power with a negative exponent is a fraction: the column must be floating)
